@@ -1,6 +1,7 @@
 package main
 
 import (
+	"os"
 	"fmt"
 	"go/types"
 	"strings"
@@ -209,7 +210,29 @@ func (fr *Frame) applyContract(ins ssa.Instruction, c *FuncContract, short strin
 			if len(tags) == 0 && fr.run.contract != nil {
 				tags = nil
 			}
-			fr.oblige("call."+short, ord, fmt.Sprintf(".requires[%d]", j+1), tags, st, g, "precondition of "+c.Name+": "+rq.Text, ins.Pos())
+			// a precondition that is a conjunction of several quantified facts (structure invariants) is
+			// discharged conjunct by conjunct: each query then has one negated universal to refute
+			nq := 0
+			for _, cj := range conjuncts(g) {
+				if hasQuant(cj) {
+					nq++
+				}
+			}
+			if cjs := conjuncts(g); nq >= 2 {
+				var plain []*Term
+				k := 0
+				for _, cj := range cjs {
+					if hasQuant(cj) {
+						k++
+						fr.oblige("call."+short, ord, fmt.Sprintf(".requires[%d]/q%d", j+1, k), tags, st, cj, "precondition of "+c.Name+" (quantified conjunct): "+rq.Text, ins.Pos())
+					} else {
+						plain = append(plain, cj)
+					}
+				}
+				fr.oblige("call."+short, ord, fmt.Sprintf(".requires[%d]", j+1), tags, st, And(plain...), "precondition of "+c.Name+": "+rq.Text, ins.Pos())
+			} else {
+				fr.oblige("call."+short, ord, fmt.Sprintf(".requires[%d]", j+1), tags, st, g, "precondition of "+c.Name+": "+rq.Text, ins.Pos())
+			}
 		}
 		st.assume(g)
 	}
@@ -221,7 +244,28 @@ func (fr *Frame) applyContract(ins ssa.Instruction, c *FuncContract, short strin
 		fr.havocLocs(st, locs, "call_"+short)
 	}
 	if !c.Pure {
-		havocAlloc(st)
+		oldAlloc := st.H(allocKey, allocSort)
+		havocAlloc(st, c.Extern)
+		if !c.Extern && (callee != nil || short != "$dynamic") {
+			// what the callee's code can allocate (alloceffect.go); unknown (nil) when it calls function values.
+			// For an interface method: the union over the module's methods of that name.
+			var set allocSet
+			if callee != nil {
+				set = eng.allocTypes(callee)
+			} else {
+				set = eng.allocTypesByMethod(short)
+			}
+			if os.Getenv("GOVC_DEBUG_ALLOC") != "" {
+				var ks []string
+				for k := range set {
+					ks = append(ks, k)
+				}
+				fmt.Fprintf(os.Stderr, "  alloc effect of %s: known=%v %v\n", short, set != nil, ks)
+			}
+			if set != nil && len(set) <= 12 {
+				st.assume(allocTagFact(oldAlloc, st.H(allocKey, allocSort), set))
+			}
+		}
 	}
 	// results
 	var res Val
@@ -270,14 +314,23 @@ func bindResults(env *SpecEnv, res Val, names []string, resT *types.Tuple) {
 	}
 }
 
+// foreignTag is the rtag of objects that are not of any struct type of the module (error values, objects allocated by dependencies).
+const foreignTag = 2000003
+
 // havocAlloc lets a callee allocate: the allocation maps grow monotonically.
-func havocAlloc(st *State) {
+func havocAlloc(st *State, foreign bool) {
 	for _, k := range []string{allocKey, allocAKey} {
 		old := st.H(k, allocSort)
 		nw := Fresh("alloc", allocSort)
 		st.assume(Not(Select(nw, IntLit(0)))) // nil is never an allocated object
 		r := Bound("r", SInt)
 		st.assume(Forall([]*Term{r}, Implies(Select(old, r), Select(nw, r)), []*Term{Select(nw, r)}, []*Term{Select(old, r)}))
+		if foreign && k == allocKey {
+			// a dependency (extern contract) cannot allocate objects of this module's struct types:
+			// whatever it allocates has a tag outside the module's range (>= 2000000)
+			q := Bound("r", SInt)
+			st.assume(Forall([]*Term{q}, Implies(And(Select(nw, q), Not(Select(old, q))), Ge(RefTag(q), IntLit(2000000))), []*Term{Select(nw, q)}))
+		}
 		st.setH(k, nw)
 	}
 }
